@@ -175,6 +175,13 @@ theorem C18_response_inverse_order (A k d : Rat) (hA : A ≠ 0) (hk : k ≠ 0) (
     rw [this]; grind
   grind
 
+/-- the same closed form read as an ELASTICITY: a rate inversely proportional to a variable or parameter (`v = A / x`, an
+    inhibition term of order −1) has the scaled elasticity `−1/(1−d²)` — order −1 up to the `d²` bias; negative and
+    fractional orders beyond this one are outside the modelled (polynomial) fragment -/
+theorem C18_elasticity_inverse_order (A x d : Rat) (hA : A ≠ 0) (hx : x ≠ 0) (hd : d ≠ 0) (h1 : 1 + d ≠ 0) (h2 : 1 - d ≠ 0) :
+    coef true d x (A / (x * (1 + d))) (A / (x * (1 - d))) (A / x) = some (-1 / (1 - d ^ 2)) :=
+  C18_response_inverse_order A x d hA hx hd h1 h2
+
 /-! ### the formulas and the structure of the CURRENT source (`translate/c18.py` → `Generated/C18Expr.lean`) -/
 
 open Mxl.Generated.C18 in
